@@ -22,6 +22,7 @@ func runC15(c *Ctx) {
 	c15Sequential(c)
 	c15Concurrent(c)
 	c15CallerSupplied(c)
+	c15Mixed(c)
 	c15LongOutstanding(c)
 }
 
@@ -77,7 +78,7 @@ func c15Concurrent(c *Ctx) {
 		kindsets = append(kindsets, []string{"p1", "p2", "sub"}, []string{"p1", "p1", "p1"}, []string{"p2", "p2"}, []string{"unsub", "unsub"})
 		p = 3
 	}
-	starts := []int32{0xFFFD, 0xFFFC, 5}
+	starts := []int32{0xFFFF, 0xFFFE, 0xFFFD, 5}
 	c.Bound("concurrent", fmt.Sprintf("caller sets %v x counter start (value before the first identifier) %v; the peer never acknowledges, so all requests stay outstanding; fine-grained mode (every instrumented field access is a scheduling point) with P<=%d; happens-before race monitor on", kindsets, starts, p))
 	for _, ks := range kindsets {
 		for _, st := range starts {
@@ -98,6 +99,8 @@ func c15Concurrent(c *Ctx) {
 						vrt.Failf("harness", "connect: %v", err)
 						return
 					}
+					// a long-lived client reaches every counter value; initID itself never starts above 0xFFFE
+					mqtt.VerifSetIDLast(cli, uint32(st))
 					ctx, cancel := vctx.WithCancel(vctx.Background())
 					for i, k := range ks {
 						i, k := i, k
@@ -243,6 +246,95 @@ func c15LongOutstanding(c *Ctx) {
 			}
 			if len(ids) == 2 && ids[0] == ids[1] {
 				vrt.Failf("c15/wraparound-reuses-outstanding-id", "identifier %d is still outstanding (first publish unacknowledged) and was given to a second request after the counter wrapped", ids[0])
+			}
+			cancel()
+			vrt.Quiesce()
+		},
+		Observe: func() uint64 { return net.TraceHash() },
+	}
+	c.Explore(sc)
+}
+
+
+// (c') sequences mixing generated and caller-supplied identifiers, all requests left outstanding.
+func c15Mixed(c *Ctx) {
+	c.Bound("mixed", "every sequence of 3 requests over {QoS 1 publish with generated id, QoS 1 publish with a caller-supplied free id next to an outstanding one (last-1, last+1, last+2), subscribe}; nothing is acknowledged; all identifiers of outstanding requests must be distinct")
+	var net *env.Net
+	sc := &vrt.Scenario{
+		Name: "C15/mixed",
+		Cfg:  vrt.Config{Horizon: int64(30 * time.Second)},
+		Body: func() {
+			net = env.NewNet()
+			s := env.NewScript(net)
+			s.AutoConnAck = true
+			cli := &mqtt.BaseClient{Transport: s.Conn}
+			vrt.W.RandInt31n = func(n int32) int32 { return 99 }
+			if _, err := cli.Connect(vctx.Background(), "c15"); err != nil {
+				vrt.Failf("harness", "connect: %v", err)
+				return
+			}
+			ctx, cancel := vctx.WithCancel(vctx.Background())
+			used := map[uint16]string{}
+			last := uint16(0)
+			var seq []string
+			for i := 0; i < 3; i++ {
+				k := vrt.Choose(vrt.KFree, 5, "request")
+				var m *mqtt.Message
+				switch k {
+				case 0:
+					m = &mqtt.Message{Topic: "t", QoS: mqtt.QoS1, Payload: []byte(fmt.Sprint("auto", i))}
+					seq = append(seq, "auto")
+				case 1, 2, 3:
+					id := last + uint16(k) - 2 // last-1, last, last+1 -> shifted below to skip 'last'
+					if k >= 2 {
+						id = last + uint16(k) - 1 // last+1, last+2
+					}
+					if id == 0 || used[id] != "" {
+						continue // the caller must not reuse an identifier that is in use
+					}
+					m = &mqtt.Message{Topic: "t", QoS: mqtt.QoS1, Payload: []byte(fmt.Sprint("own", i)), ID: id}
+					seq = append(seq, fmt.Sprint("own:", id))
+				case 4:
+					n := len(s.Got)
+					vrt.Go("sub", func() { cli.Subscribe(ctx, mqtt.Subscription{Topic: fmt.Sprint("f", i)}) })
+					vrt.Settle()
+					seq = append(seq, "sub")
+					for _, p := range s.Got[n:] {
+						if p.Type == env.SUBSCRIBE {
+							if used[p.ID] != "" {
+								key := "c15/duplicate-outstanding-id"
+								if strings.HasPrefix(used[p.ID], "publish own") {
+									key = "c15/generated-id-equals-outstanding-caller-id"
+								}
+								vrt.Failf(key, "sequence %v: SUBSCRIBE got identifier %d, which %s still holds", seq, p.ID, used[p.ID])
+							}
+							used[p.ID] = "a subscribe"
+							last = p.ID
+						}
+					}
+					continue
+				}
+				n := len(s.Got)
+				generated := m.ID == 0
+				vrt.Go("pub", func() { cli.Publish(ctx, m) })
+				vrt.Settle()
+				for _, p := range s.Got[n:] {
+					if p.Type == env.PUBLISH {
+						if p.ID == 0 {
+							vrt.Failf("c15/zero-id", "sequence %v: identifier 0", seq)
+						}
+						if used[p.ID] != "" {
+							key := "c15/duplicate-outstanding-id"
+							if strings.HasPrefix(used[p.ID], "publish own") && generated {
+								// the allocator does not know identifiers the caller put on earlier messages
+								key = "c15/generated-id-equals-outstanding-caller-id"
+							}
+							vrt.Failf(key, "sequence %v: %q got identifier %d, which %s still holds", seq, string(p.Payload), p.ID, used[p.ID])
+						}
+						used[p.ID] = "publish " + string(p.Payload)
+						last = p.ID
+					}
+				}
 			}
 			cancel()
 			vrt.Quiesce()
